@@ -248,7 +248,7 @@ impl Check for C12 {
         "C12"
     }
     fn ncases(&self, tier: Tier) -> u64 {
-        tier.sz(480, 3200)
+        tier.sz(1920, 16000)
     }
     fn rule(&self) -> &'static str {
         "one seed specification per case (generated .y in all syntaxes with headers/actions/comments, generated .l, and every .y/.l file and cttests grammar/lexer block found under /repo); mutants: truncation at EVERY character boundary (exhaustive per seed), random range deletion/duplication/transposition, injection of brackets/quotes/percent/comment openers/multi-byte/NUL/CR/huge numbers at random offsets (quick) or at every offset (thorough, rotating injected string), digit runs, header-focused prefixes; each mutant goes to ASTWithValidityInfo::new (3+ kinds) incl. warnings, YaccGrammar::new/from_str, LRNonStreamingLexerDef::from_str and GrmtoolsSectionParser::parse(required true/false): no panic, returns (watchdog), value or non-empty errors, every error/warning span within the text on char boundaries. Non-trivial = mutant differs from its seed and hits an error path; distinct by mutant text."
@@ -257,7 +257,7 @@ impl Check for C12 {
         vec!["'terminates promptly' is judged by the per-case watchdog (40 s for some 10^4 parser calls) with isolated confirmation and a trace of the last input"]
     }
     fn floor(&self, tier: Tier) -> u64 {
-        tier.sz(50000, 400000)
+        tier.sz(100000, 800000)
     }
     fn required_counters(&self, _t: Tier) -> Vec<&'static str> {
         vec!["truncations", "random_mutants", "yacc_inputs", "lex_inputs", "header_inputs", "results_ok", "results_err", "repo_seed_cases", "generated_seed_cases"]
